@@ -87,7 +87,7 @@ def run(ctx):
     # (M) design layer: NAF recoding, NAF loop, table construction + signed-digit table loop and the interleaved mul_add loop
     # (Jacobi.tla) refine the k-fold sum / a P + b Q on every curve over the small fields
     jcfg = ("INIT Init\nNEXT Next\nCHECK_DEADLOCK FALSE\nCONSTANTS Primes = {%s}\n MaxK = %d\n MaxAB = %d\n ReduceHR = TRUE\n"
-            "INVARIANT NafFacts\nINVARIANT MulNafRefines\nINVARIANT MulTableRefines\nINVARIANT MulAddRefines\n")
+            "INVARIANT NafFacts\nINVARIANT MulNafRefines\nINVARIANT MulTableRefines\nINVARIANT MulAddRefines\nINVARIANT AffMulRefines\n")
     ctx.add_tlc(core.tlc_or_die(ctx.workdir, "JacobiModel", jcfg % (("5, 7", 24, 7) if quick else ("5, 7, 11", 40, 12)),
                                 tag="jacmul", timeout=3000))
     jobs = []
